@@ -51,6 +51,8 @@ def gen(ch, tier):
         # signed with the right private key, but the certificate (of the trusted CA) names another node or none: not the key of this source
         plan['cert'] = ch.choice('certk', ('other-id', 'no-id'))
         plan['dst_key'] = 'wrong'
+        # ... and the receiver may already have verified an honest bundle of the node that certificate does name
+        plan['primed'] = plan['cert'] == 'other-id' and kind == 'sign1-chain' and ch.coin('primed', 2, 3)
     if kind.startswith('foreign'):
         plan['scope'] = ch.choice('scope', ([[0, 1], [-1, 1]], [[0, 1], [-1, 1], [-2, 1]], [[-1, 1]], [[0, 1]], [[-1, 1], [3, 2]], [[0, 1], [-1, 3]], [[0, 1], [-1, 1], [3, 3]], [[-1, 1], [3, 1]]))
         plan['addl'] = ch.coin('addl', 1, 3)
@@ -159,7 +161,12 @@ def _pki(plan):
 
 def execute(plan, sched, verbose=False):
     (src_pki, dst_pki) = _pki(plan)
-    har = sc.make_world(sched, _policy(plan), _dst_keys(plan), plan['accept'], verbose, src_pki=src_pki, dst_pki=dst_pki)
+    extra = None
+    if plan.get('primed'):
+        # the rightful owner of the certificate: node dtn://mallory/, same key pair, same certificate, same policy
+        extra = {'m': dict(node_id='dtn://mallory/', rx_routes=[], tx_routes=[['.*', 'dtn://d/', None, 'd']],
+                           security=dict(keys=list(sc.KEYS.values()), policies=_policy(plan), pki=dict(src_pki)))}
+    har = sc.make_world(sched, _policy(plan), _dst_keys(plan), plan['accept'], verbose, src_pki=src_pki, dst_pki=dst_pki, extra_nodes=extra)
     run = Run()
     run.har = har
     run.wld = har.wld
@@ -373,6 +380,17 @@ def _drive(run, plan, har):
     if plan.get('split_assoc') and not plan['kind'].startswith('foreign'):
         stats['kind.split_assoc'] = 1
     seqno = 0
+    if plan.get('primed'):
+        # history at the receiver: an honest, unmodified bundle of the node the certificate names is verified and delivered first
+        honest = sc.source_bundle(har, seq_code(900), bc.body(1900, plan['plen']), pri_crc=plan['pri_crc'], pay_crc=plan['blk_crc'], node='m')
+        if honest is None:
+            run.viols.append(('setup', 'source-did-not-transmit', 'the rightful owner of the certificate transmitted nothing'))
+            return
+        (_rec, dels, _outs) = sc.deliver(har, honest)
+        if len(dels) != 1:
+            run.viols.append(('unmodified', 'not-delivered-sign1-owner', 'an unmodified bundle signed by the node its certificate names was not delivered (actions %s reason %s)' % (_rec['actions'], _rec['reason'])))
+            return
+        stats['probe.receiver_primed_with_owner'] = 1
     first = make_copy(plan, har, seqno)
     if first is None:
         run.viols.append(('setup', 'source-did-not-transmit', 'the source node transmitted nothing for the secured bundle'))
